@@ -194,6 +194,11 @@ func (c *Ctx) Finish(explanation string, notDecided string, assumptions []string
 			fmt.Printf("  facts on path: %s\n", strings.Join(o.Facts, "; "))
 		}
 	}
+	if os.Getenv("RCHECK_DUMP") != "" {
+		for _, o := range c.obs {
+			fmt.Printf("OB %-5v %s @ %s :: %s %s\n", o.OK, o.Key, o.Site, o.What, o.Detail)
+		}
+	}
 	// evidence
 	total := len(c.obs)
 	disch := 0
